@@ -348,8 +348,11 @@ def check_property(pid, tier="quick", seed=0, jobs=None):
     )
     ev = dict(property_id=pid, tier=tier, seed=seed, level=level, coverage=cov, assumptions=assumptions,
               wall_s=round(time.time() - t0, 2), violations=len(violations))
-    os.makedirs(os.path.join(VERIF, "evidence"), exist_ok=True)
-    with open(os.path.join(VERIF, "evidence", f"{pid}.json"), "w") as f:
+    # evidence describes /repo's current tree; runs against another tree (PYVC_REPO: seeded-change experiments)
+    # must not overwrite it
+    evdir = os.environ.get("PYVC_EVIDENCE_DIR") or (os.path.join(VERIF, "evidence") if REPO == "/repo" else os.path.join(VERIF, ".work", "evidence_other_tree"))
+    os.makedirs(evdir, exist_ok=True)
+    with open(os.path.join(evdir, f"{pid}.json"), "w") as f:
         json.dump(ev, f, indent=1, default=str)
 
     for ln in lines:
